@@ -197,8 +197,9 @@ func genMulti(r *vgen.Rng, tier string) []Case {
 
 func genSubBatch(r *vgen.Rng, tier string) []Case {
 	var out []Case
+	fin := ""
 	mk := func(head int64, blks []*big.Int, dests []int) {
-		c := Case{Path: "SubBatch", Head: I(head), Dests: dests}
+		c := Case{Path: "SubBatch", Head: I(head), Dests: dests, Fin: fin}
 		for _, b := range blks {
 			if b.Sign() < 0 {
 				return
@@ -232,6 +233,20 @@ func genSubBatch(r *vgen.Rng, tier string) []Case {
 		}
 		rec(nil, 3)
 	}
+	// the finalized-head lookup of the range fails (each RPC of it): Retry events above, at and below
+	// the head the node would have answered
+	for _, fin = range failModes {
+		for _, h := range []int64{0, 1, 100} {
+			B := func(x int64) *big.Int { return big.NewInt(nn(x)) }
+			mk(h, []*big.Int{B(h + 5)}, []int{2})
+			mk(h, []*big.Int{B(h + 1)}, []int{2})
+			mk(h, []*big.Int{B(h)}, []int{2})
+			mk(h, []*big.Int{B(h - 1)}, []int{2})
+			mk(h, []*big.Int{B(h + 5), B(h), B(h + 1)}, []int{2, 3, 2})
+			mk(h, []*big.Int{B(h - 50), B(h + 1), B(h + 1)}, []int{2, 2, 3})
+		}
+	}
+	fin = ""
 	n := 90
 	if tier == "thorough" {
 		n = 1500
@@ -265,7 +280,12 @@ func genSubBatch(r *vgen.Rng, tier string) []Case {
 			blks = append(blks, b)
 			dests = append(dests, r.Range(1, 4))
 		}
+		fin = ""
+		if r.Chance(1, 8) {
+			fin = vgen.Pick(r, failModes)
+		}
 		mk(h, blks, dests)
+		fin = ""
 	}
 	return out
 }
@@ -313,6 +333,28 @@ func genTxBatch(r *vgen.Rng, tier string) []Case {
 			mk(5, one(0, rb), one(1, B(50)), one(0, rb))
 			mk(5, one(1, B(50)), one(0, rb), one(1, B(50)), one(0, rb))
 			mk(5, one(0, rb), one(1, nil), one(2, B(94)), one(3, B(95)))
+		}
+	}
+	// 3. the head lookup of an event fails: on a handler that has not been served any head yet
+	//    (whatever block the receipt names), and after events that were answered a head - the receipt
+	//    then names a block that no head served before buries
+	for _, hf := range []string{"err", "err0"} {
+		head := int64(100)
+		bad := func(tx int, rb *Int) TxEv {
+			return TxEv{Tx: tx, Status: 1, Head: B(head), HFail: hf, RBlk: rb, Logs: []TxLog{lg(true, rb), lg(false, rb), lg(true, rb)}}
+		}
+		good := func(tx int, rb *Int) TxEv {
+			return TxEv{Tx: tx, Status: 1, Head: B(head), RBlk: rb, Logs: []TxLog{lg(true, rb)}}
+		}
+		for _, rb := range []*Int{nil, B(0), B(50), B(94), B(95), B(97), B(103)} {
+			mk(5, bad(0, rb))
+			mk(5, bad(0, rb), bad(1, rb))
+		}
+		for _, rb := range []*Int{B(97), B(100), B(103)} {
+			mk(5, good(0, B(50)), bad(1, rb))
+			mk(5, bad(1, rb), good(0, B(50)))
+			mk(5, good(0, B(50)), bad(1, rb), good(2, B(94)), bad(3, rb))
+			mk(5, good(0, B(50)), good(1, B(96)), bad(2, rb), bad(2, rb))
 		}
 	}
 	n := 130
